@@ -10,20 +10,20 @@ import (
 )
 
 const (
-	dmapPkg         = "internal/dmap"
-	fnPutOnCluster  = dmapPkg + ".(*DMap).putOnCluster"
-	fnSyncPut       = dmapPkg + ".(*DMap).syncPutOnCluster"
-	fnAsyncPut      = dmapPkg + ".(*DMap).asyncPutOnCluster"
-	fnPutEntryFrag  = dmapPkg + ".(*DMap).putEntryOnFragment"
-	fnDeleteOnClu   = dmapPkg + ".(*DMap).deleteOnCluster"
-	fnDeleteKey     = dmapPkg + ".(*DMap).deleteKey"
-	fnDelPrev       = dmapPkg + ".(*DMap).deleteFromPreviousOwners"
-	fnDelBackup     = dmapPkg + ".(*DMap).deleteBackupOnCluster"
-	fnGetOnCluster  = dmapPkg + ".(*DMap).getOnCluster"
-	fnLookupOwners  = dmapPkg + ".(*DMap).lookupOnOwners"
-	fnLookupRepl    = dmapPkg + ".(*DMap).lookupOnReplicas"
-	fnOwnersByHKey  = "internal/cluster/partitions.(*Partitions).PartitionOwnersByHKey"
-	fnRedisProcess  = "github.com/redis/go-redis/v9.(*Client).Process"
+	dmapPkg        = "internal/dmap"
+	fnPutOnCluster = dmapPkg + ".(*DMap).putOnCluster"
+	fnSyncPut      = dmapPkg + ".(*DMap).syncPutOnCluster"
+	fnAsyncPut     = dmapPkg + ".(*DMap).asyncPutOnCluster"
+	fnPutEntryFrag = dmapPkg + ".(*DMap).putEntryOnFragment"
+	fnDeleteOnClu  = dmapPkg + ".(*DMap).deleteOnCluster"
+	fnDeleteKey    = dmapPkg + ".(*DMap).deleteKey"
+	fnDelPrev      = dmapPkg + ".(*DMap).deleteFromPreviousOwners"
+	fnDelBackup    = dmapPkg + ".(*DMap).deleteBackupOnCluster"
+	fnGetOnCluster = dmapPkg + ".(*DMap).getOnCluster"
+	fnLookupOwners = dmapPkg + ".(*DMap).lookupOnOwners"
+	fnLookupRepl   = dmapPkg + ".(*DMap).lookupOnReplicas"
+	fnOwnersByHKey = "internal/cluster/partitions.(*Partitions).PartitionOwnersByHKey"
+	fnRedisProcess = "github.com/redis/go-redis/v9.(*Client).Process"
 )
 
 func init() {
@@ -42,6 +42,7 @@ func init() {
 			c02WhoDeletes(r)
 			c03DropAfterAck(r)
 			balancerKeepsOwnCopies(r)
+			c17Pack(r)
 		},
 	})
 }
@@ -140,9 +141,10 @@ func c02ReplicateBeforeAck(r *core.Run) {
 
 // checkOwnersLoop: fn ranges over the complete result of <field>.PartitionOwnersByHKey and
 // executes an instruction matching ev in every iteration.
-func checkOwnersLoop(r *core.Run, rule string, fn *core.Fn, partField string, ev instrPred, evName string) {
+func checkOwnersLoop(r *core.Run, rule string, fn *core.Fn, partField string, ev0 instrPred, evName string) {
 	found := false
 	for _, f := range core.AllSSA(fn.SSA) {
+		ev := viaHelpers(r.P, f, ev0) // the event may live in a same-package helper called in the loop
 		for _, l := range core.IndexLoops(f) {
 			if l.LenOf == nil {
 				continue
@@ -330,10 +332,26 @@ func c02ReadConsultsAll(r *core.Run) {
 				ok = false
 				continue
 			}
+			// the condition must hold whenever ReadQuorum >= 1 (always true for a validated
+			// configuration), in whichever form it is written
 			k, isK := bin.Y.(*ssa.Const)
-			// ReadQuorum >= 1 is always true for a validated configuration
-			if !isK || k.Value == nil || k.Int64() != 1 || !(bin.Op == token.GEQ && cd.Truth) {
+			swap := false
+			if !isK {
+				k, isK = bin.X.(*ssa.Const)
+				swap = true
+			}
+			if !isK || k.Value == nil || k.Int64() != 1 {
 				ok = false
+				continue
+			}
+			for _, ord := range []int{0, 1} {
+				o := ord
+				if swap {
+					o = -ord
+				}
+				if core.CmpHolds(bin.Op, o) != cd.Truth {
+					ok = false
+				}
 			}
 		}
 		r.Check(ok, "read-consults-all-copies", fnGetOnCluster+" -> lookupOnReplicas", site(r, instrPos(c)),
@@ -350,8 +368,9 @@ func c02ReadConsultsAll(r *core.Run) {
 
 // previousOwnersLoop: fn loops over indices 0..len-2 of an owners list and executes ev in
 // every iteration.
-func previousOwnersLoop(r *core.Run, rule string, fn *core.Fn, ev instrPred, evName string) {
+func previousOwnersLoop(r *core.Run, rule string, fn *core.Fn, ev0 instrPred, evName string) {
 	found := false
+	ev := viaHelpers(r.P, fn.SSA, ev0)
 	for _, l := range core.IndexLoops(fn.SSA) {
 		if l.LenOf == nil {
 			continue
@@ -405,7 +424,7 @@ func c02WhoDeletes(r *core.Run) {
 	la := newLockAnalysis(r)
 	la.run()
 	allowed := map[string]string{
-		fnDeleteOnClu: "replicates the delete first",
+		fnDeleteOnClu:                           "replicates the delete first",
 		dmapPkg + ".(*DMap).deleteFromFragment": "the replica / previous-owner side apply of DM.DELENTRY",
 	}
 	cnt := 0
